@@ -17,7 +17,7 @@ Allowed ==
       [] Ev.kind = "whole"    -> Ev.outcome = "ok"
       [] Ev.kind = "schedule" -> Ev.outcome = Ev.whole_outcome /\ Ev.digest = Ev.whole_digest   \* delivery-independent
       [] Ev.kind = "sinkfail" -> Ev.outcome = "err"                       \* the sink's error is returned
-      [] Ev.kind \in {"mutate", "random", "depth"} -> Ev.outcome \in {"ok", "err"}   \* never panic / abort / hang
+      [] Ev.kind \in {"mutate", "random", "depth", "structure"} -> Ev.outcome \in {"ok", "err"}   \* never panic / abort / hang
       [] OTHER -> FALSE
 
 Step == /\ l <= Len(Rec)
